@@ -239,7 +239,7 @@ def check_json(case, ctx):
 def _mesh_cases(draw, tier):
     kind = draw(st.sampled_from(["surface", "volume"]))
     n = draw(st.sampled_from([1, 1, 2, 3, 4]))
-    shapes = [_ordinary_weights(draw(gen.spline(kinds=(kind,), max_p=3, max_extra=3, different=True, vol_max_p=2, vol_max_extra=2, unclamped="maybe")))
+    shapes = [_ordinary_weights(draw(gen.spline(wspread=True, kinds=(kind,), max_p=3, max_extra=3, different=True, vol_max_p=2, vol_max_extra=2, unclamped="maybe")))
               for _ in range(n)]
     return {"shapes": shapes}
 
@@ -324,6 +324,10 @@ def _txt_cases(draw, tier):
         if d["rational"]:
             d["W"] = [d["W"][(i // nv_) * nv_] if i % nv_ == nv_ - 1 else w for i, w in enumerate(d["W"])]
         d["closed_v"] = True
+    if draw(st.integers(0, 2)) == 0:
+        # coordinates that need many digits: a survey offset (exactly representable) added to every point
+        d["P"] = [[c + o for c, o in zip(q, [524288.0078125, -4194304.5, 1048576.00390625])] for q in d["P"]]
+        d["many_digits"] = True
     return {"defn": d, "sep": draw(st.sampled_from([",", " ", "\t", ";"])), "col": draw(st.sampled_from([";", "|", ",", " ; "])),
             "two": draw(st.booleans())}
 
